@@ -7,6 +7,7 @@ from . import spec as S
 
 CONSTS = [0, 1, -1, 2, -2, 3, 0.5, -0.5, 0.25, 1.5, 10, math.e, 0.1, -0.7, 2.0, 1.0, 0.0, 5, 0.75]
 CONSTS_NICE = [0, 1, -1, 2, -2, 3, 0.5, -0.5, 0.25, 1.5, 4, 0.75, -3, 5]
+BIG_INTS = [2 ** 53, 2 ** 53 + 1, 2 ** 53 + 2, 10 ** 17 + 3, 2 ** 64 - 1, -(2 ** 53 + 1), 2 ** 60, 10 ** 22, 10 ** 22 + 1, float(2 ** 53), 1e17, -9007199254740992.0]
 BASES = [None, math.e, 2, 10, 3, 1.5, 0.5, 0.25, 0.1, 7.25, 2.0]
 VARNAMES = ["x", "y", "z", "w"]
 POINT_VALUES = [0.5, 1.5, 2.0, -1.5, 0.25, 3.0, -0.5, 1.0, -2.0, 0.75, 2.5, -0.25, 4.0, 0.125, -3.0,
@@ -792,6 +793,11 @@ def _mutate_node(rng, node):
         choices.append(("Constant", fv * (1 + 1e-12) if fv != 0 else 1e-300))
         choices.append(("Constant", fv * (1 - 5e-10) if fv != 0 else -5e-324))
         choices.append(("Constant", fv + 1e-9))
+        if abs(fv) >= 2 ** 53:
+            # beyond 2**53 neighbouring integers share a double: the float spelling is equal only when exact
+            choices.append(("Constant", fv))
+            choices.append(("Constant", int(fv) + (1 if int(fv) == v else 0)))
+            choices.append(("Constant", int(v) - 1))
     elif k == "Variable":
         choices.append(("Variable", node[1] + "_"))
         choices.append(("Variable", node[1].upper() if node[1].upper() != node[1] else node[1].lower() + "q"))
